@@ -15,6 +15,7 @@ pub fn dump() {
     put_u!(NANOSECONDS_PER_DAY);
     put_u!(NANOSECONDS_PER_CENTURY);
     put_u!(DAYS_PER_CENTURY_U64);
+    put_u!(DAYS_PER_WEEK_I64);
     let parts = |d: Duration| {
         let (c, ns) = d.to_parts();
         serde_json::json!([c.to_string(), ns.to_string()])
